@@ -1642,7 +1642,7 @@ def builtin_summary(I, cal, args, node, st):
             if t and a[0] == 'is' and a[1] == v:
                 return [Out('val', ('discr', a[2]), st)]
         return [Out('val', ('call', cal, tuple(args), None), st)]
-    if cal == 'core::convert::Into::into' and len(args) == 1 and node.get('k') == 'MethodCall' and node.get('inst') == '<T as core::convert::Into<U>>::into':
+    if cal in ('core::convert::Into::into', '<T as core::convert::Into<U>>::into') and len(args) == 1 and node.get('k') == 'MethodCall' and node.get('inst') == '<T as core::convert::Into<U>>::into':
         # `x.into()` through std's blanket impl (`impl<T, U: From<T>> Into<U> for T { fn into(self) -> U { U::from(self) } }`) is
         # `U::from(x)` for every x: where that From impl is a function of the workspace the call is a call of it - a real
         # conversion with a body of its own, not a transparent wrapper (Tag -> LdapResult decodes a protocolOp).
